@@ -952,6 +952,8 @@ func topLevelRestTemporaryCollision(c Case, out string, refTrace string) string 
 }
 
 // ---- C05-private-static-field-assigned-outside-class (confirmed by transforming again)
+// REPAIRED in esbuild by 0a6f9db: the id no longer excuses a failure; the matcher is consulted last and
+// a match reports a regression of that repair.
 // With `class-private-brand-check` unsupported and static private fields supported (`supported:
 // {class-private-brand-check: false}`, node 12–16.3, chrome 84–90), a class that contains a brand check
 // `#a in o` and declares a static private field is emitted with `static #d;` left in the class body and
@@ -1096,6 +1098,9 @@ func privateStaticFieldOutsideClass(c Case, out string, gotTrace string, depth i
 }
 
 func isFixedID(id string) bool {
+	if id == "C05-private-static-field-assigned-outside-class" {
+		return true
+	}
 	for _, f := range outputRepairs {
 		if f.id == id && f.fixed != "" {
 			return true
@@ -1235,9 +1240,6 @@ func classify(c Case, out string, refTrace, gotTrace string, depth int) string {
 	if depth >= maxRewriteDepth {
 		return ""
 	}
-	if id := privateStaticFieldOutsideClass(c, out, gotTrace, depth); id != "" {
-		return id
-	}
 	// 3. input rewrites, one at a time; the rewritten program is judged recursively, so several findings
 	// in one program are peeled off one after the other
 	pi, err := jsref.Parse(c.Code, jsref.Options{})
@@ -1293,6 +1295,9 @@ func classify(c Case, out string, refTrace, gotTrace string, depth int) string {
 	if fallback != "" {
 		return fallback
 	}
-	// 4. the output repairs of findings that were repaired in esbuild (a match is a regression)
+	// 4. the matchers of findings that were repaired in esbuild (a match is a regression)
+	if id := privateStaticFieldOutsideClass(c, out, gotTrace, depth); id != "" {
+		return id
+	}
 	return tryRepairs(true)
 }
